@@ -284,7 +284,8 @@ def r2(prog, run, fns, byid):
             run.instance(rid)
             top = top_function(prog, f)
             if val == ('bool', True):
-                if top.qname in allowed_true and (fld.endswith('sessionStarted') or f.is_lambda):
+                if (top.qname in allowed_true and (fld.endswith('sessionStarted') or f.is_lambda)) or \
+                        (fld.endswith('isAuthenticated') and _only_from_continuations(prog, top, allowed_true)):
                     run.ok(rid, f.loc(i), '%s = true in %s' % (fld.split('::')[-1], top.qname.split('::')[-1]))
                 else:
                     run.violation(rid, '%s-set#%s' % (fld.split('::')[-1], top.qname), f.loc(i), '%s is set to true in %s' % (fld.split('::')[-1], top.display()))
@@ -443,6 +444,24 @@ def _must_call_deep(prog, fn, callee_q, byid, depth=0, seen=None):
             if g.id in byid and _must_call_deep(prog, g, callee_q, byid, depth + 1, seen):
                 return True
     return False
+
+
+def _only_from_continuations(prog, g, allowed, depth=0):
+    """g is a named helper that is called only from continuations (lambdas) inside the allowed functions - directly or through one more such helper:
+    the body of a continuation moved into a member function (onSaslAuthFinished(result)) is still that continuation"""
+    if depth > 2 or g.is_lambda:
+        return False
+    sites = [(c, ci) for c, ci in prog.callers().get(g.id, [])]
+    if not sites or any(c.nodes[ci]['k'] != 'call' for c, ci in sites):
+        return False
+    for c, ci in sites:
+        top = top_function(prog, c)
+        if c.is_lambda and top.qname in allowed:
+            continue
+        if not c.is_lambda and _only_from_continuations(prog, c, allowed, depth + 1):
+            continue
+        return False
+    return True
 
 
 def r4(prog, run):
